@@ -108,24 +108,24 @@ class Func:
         return f"<func {self.qual}>"
 
 
-_GEN_CACHE: dict = {}
-
-
 def _is_generator(node):
-    k = id(node)
-    if k not in _GEN_CACHE:
-        found = False
-        stack = list(node.body) if isinstance(node.body, list) else [node.body]
-        while stack:
-            n = stack.pop()
-            if isinstance(n, (ast.Yield, ast.YieldFrom)):
-                found = True
-                break
-            if isinstance(n, (ast.FunctionDef, ast.AsyncFunctionDef, ast.Lambda, ast.ClassDef)):
-                continue
-            stack.extend(ast.iter_child_nodes(n))
-        _GEN_CACHE[k] = found
-    return _GEN_CACHE[k]
+    """Does the function body contain a yield of its own?  Memoised on the AST node itself (an id()-keyed cache would be
+    poisoned when node ids are re-used after garbage collection)."""
+    cached = getattr(node, "_verif_is_gen", None)
+    if cached is not None:
+        return cached
+    found = False
+    stack = list(node.body) if isinstance(node.body, list) else [node.body]
+    while stack:
+        n = stack.pop()
+        if isinstance(n, (ast.Yield, ast.YieldFrom)):
+            found = True
+            break
+        if isinstance(n, (ast.FunctionDef, ast.AsyncFunctionDef, ast.Lambda, ast.ClassDef)):
+            continue
+        stack.extend(ast.iter_child_nodes(n))
+    node._verif_is_gen = found
+    return found
 
 
 class Prop:
